@@ -182,12 +182,34 @@ def run(ctx):
                 tls_diff += 1
             else:
                 ctx.violation("C08:ekm-equal-across-sessions", "two different QUIC/TLS sessions exported the same keying material", rep)
+    # the receiver's accept path (acceptAuthenticated / acceptExtraConns): strangers that reach the listener first - silent ones, and ones that
+    # run the sender's side of the handshake with another join code - are never handed on; the legitimate sender is, promptly
+    acc_specs = []
+    for rogues, code in ((1, "WRONGCOD"), (3, "WRONGCOD"), (2, ""), (3, ""), (2, "ABCDEFGX"), (1, "abcdefgh")):
+        acc_specs.append({"cands": ["A", "B"], "schedule": [], "mode": "select", "extra": 1, "rogues": rogues, "rogue_code": code})
+    apath = os.path.join(ctx.workdir, "accept.cases")
+    open(apath, "w").write("\n".join("race " + json.dumps(a).encode().hex() for a in acc_specs) + "\n")
+    rc = ctx.run_harness(exe, apath, os.path.join(ctx.workdir, "accept.out"), timeout=300)
+    aouts = open(os.path.join(ctx.workdir, "accept.out")).read().splitlines()
+    ctx.oblige("harness:accept-path", rc == 0 and len(aouts) == len(acc_specs), ctx.harness_stderr[-300:])
+    for a, line in zip(acc_specs, aouts):
+        try:
+            o = json.loads(line)
+        except Exception:
+            ctx.oblige("harness:accept-path-output", False, line[:200])
+            continue
+        rep = {"scenario": a, "result": o}
+        if o.get("rogue_accepted") or o.get("unexpected_extra_authenticated"):
+            ctx.violation("C08:accepted:stranger-at-accept", f"a connection that does not hold the join code came out of the receiver's authenticated accept ({a['rogues']} strangers with code {a['rogue_code']!r})", rep)
+        if not o.get("same_connection") or o.get("extra_receiver_ok") != a["extra"]:
+            ctx.violation("C08:honest-rejected:accept-path", f"the legitimate sender was not taken (or its extra connection was not) with {a['rogues']} strangers ahead of it: {o.get('sender_auth_err') or o.get('receiver_select_err') or o.get('extra_receiver_err')}", rep)
+        hist["accept-path"] = hist.get("accept-path", 0) + 1
     ctx.coverage.update({
-        "evaluations": len(cases), "distinct_nontrivial": sum(1 for (sc, exp) in cases if False in exp.values()),
+        "evaluations": len(cases) + len(acc_specs), "distinct_nontrivial": sum(1 for (sc, exp) in cases if False in exp.values()) + len(acc_specs),
         "scenario_histogram": hist,
         "rule": "honest pair over all ordered pairs of 9 join codes (netsim; QUIC: equal pairs + a sample, thorough: all); relay between two TLS sessions (netsim with distinct exporter outputs, and two real loopback QUIC sessions); "
                 "every (quick: a third of the) single-bit flip(s) and truncation(s) of either auth message in flight; rogue dialer / rogue listener with model-made replays from another session, messages under another or the empty code, "
-                "role-swapped messages, reflection, random proofs, bad version, trailing bytes; positive controls (legitimate holder). non-trivial = scenarios in which some honest end must reject",
+                "role-swapped messages, reflection, random proofs, bad version, trailing bytes; positive controls (legitimate holder); the receiver's real accept path (acceptAuthenticated/acceptExtraConns on a quic-go listener) with 1-3 silent or wrong-code strangers connected ahead of the legitimate sender. non-trivial = scenarios in which some honest end must reject",
         "tls_exporter_measured": {"same_session_equal": tls_same, "different_sessions_differ": tls_diff},
         "disagreements_model_vs_impl": len(diffs),
         "samples": [json.dumps(cases[0][0])[:200], json.dumps(cases[-1][0])[:200]],
